@@ -6,16 +6,16 @@ CONSTANTS
   WriterAdds <- MCAdds
   ReaderWants <- MCWants
   MaxRetries = 3
-  SeekKey = "none"
+  SeekKey = "k4"
   ReaderPinned = FALSE
   PerPack = TRUE
   AllowCrash = FALSE
-  AllowPower = TRUE
+  AllowPower = FALSE
   AllowFault = FALSE
   UnlinkBeforeCommit = FALSE
   CommitBeforeFlush = FALSE
   NoFallback = FALSE
-  SkipPackFsync = TRUE
+  SkipPackFsync = FALSE
   RenameBeforeFsync = FALSE
 INVARIANT TypeOK
 INVARIANT ReadCorrect
@@ -23,3 +23,4 @@ INVARIANT Recoverable
 INVARIANT DurableVisible
 INVARIANT AfterPowerLoss
 INVARIANT WriteAcked
+INVARIANT SeekReadCorrect
